@@ -928,7 +928,8 @@ def run_block(r, blocks, keep=False, verbose=False):
     base, cfile, hname, linemap = r.base, r.cfile, r.hname, r.linemap
     tmo = b.timeout or TIMEOUT
     defs = ['-D' + d for d in getattr(b, 'defines', [])]
-    rc, out, err, dt = sh(['goto-cc', '--function', hname, '-DBS_CANARY()='] + defs + ['-o', base + '.a.gb', cfile], 120)
+    rc, out, err, dt = sh(['goto-cc', '--function', hname, '-DBS_CANARY()='] + defs + (['-DBS_CAP=8UL'] if b.bounded else []) +
+                          ['-o', base + '.a.gb', cfile], 120)
     if rc != 0:
         r.reason = 'goto-cc failed: ' + (err or out)[-1500:]
         return r
